@@ -404,6 +404,7 @@ func runC12(e *Engine, r *Report) {
 	c12Pool(e, r)
 	ruleStopBeforeTerminate(e, r)
 	ruleQueueAdmission(e, r)
+	ruleRequestAdmission(e, r)
 	ruleLogQueryAnswered(e, r)
 	ruleResultTruthfulAPI(e, r)
 }
